@@ -101,6 +101,12 @@ def main():
             shutil.copy(os.path.join(src, "patch.diff"), keep)
             shutil.copy(os.path.join(src, "demo_test.go"), os.path.join(keep, "demo_test.go.txt"))
             meta2 = dict(meta)
+            try:  # keep hand-written notes of an earlier evaluation
+                old = json.load(open(os.path.join(keep, "meta.json")))
+                if old.get("history"):
+                    meta2["history"] = old["history"]
+            except (OSError, ValueError):
+                pass
             meta2["id"] = sid
             meta2["written_by"] = "independent sub-agent given only the property text and a scratch worktree"
             meta2["confirmed"] = {k: rep[k] for k in ("applies", "compiles", "suite_passes", "demo_fails_with_patch", "demo_passes_without_patch")}
